@@ -48,8 +48,8 @@ Section F.
 Variable src : srcp.
 Variable c : cfg.
 
-Lemma nof_res_dec : nofA (res_dec c).
-Proof. intros s. unfold res_dec. destruct (c_max_retries c =? 0); cbn; auto. Qed.
+Lemma nof_res_dec : nofA (res_dec src c).
+Proof. intros s. unfold res_dec. destruct (res_off src c); cbn; auto. Qed.
 Lemma nof_rs_reset : nofA (rs_reset src c).
 Proof. unfold rs_reset. pose proof nof_res_dec. nof_auto. Qed.
 Lemma nof_upreq_reset_stream : nofA upreq_reset_stream.
